@@ -38,6 +38,11 @@ pub fn big_recipe(t: usize, tail_pad: usize) -> Value {
     an.push(rr("m", 5, json!([nm("v.u")])));
     an.push(rr("u", 15, json!([[0, 3], nm("x.u")])));
     an.push(rr("q.m", 12, json!([nm("y.v.u")])));
+    // an SRV (compression forbidden) whose target is new, followed by records owned by that target: the target's
+    // labels, written beyond the pointer limit for t >= ~16300, must not become pointer targets
+    an.push(rr("_svc._tcp.zz", 33, json!([[0, 0], [0, 0], [0, 80], nm("newhost.yy.zz")])));
+    an.push(rr("newhost.yy.zz", 1, json!([[10, 0, 0, 9]])));
+    an.push(rr("yy.zz", 2, json!([nm("newhost.yy.zz")])));
     if tail_pad > 0 {
         an.push(rr("p.q", 10, json!([filler(tail_pad, 9)])));
         an.push(rr("late.n.m", 2, json!([nm("late.n.m")])));
